@@ -1,6 +1,7 @@
 package zzharness
 
 import (
+	"os"
 	"context"
 	"encoding/binary"
 	"fmt"
@@ -94,6 +95,11 @@ func runC29(t *testing.T, c Case) (res Result) {
 		}
 		used[n] = true
 		sws = append(sws, &swm{name: n, island: uint64(1 + nr.intn(3)), keys: map[string]bool{}})
+	}
+	if os.Getenv("VERIF_DEBUG") != "" {
+		for i, s := range sws {
+			fmt.Printf("  swamp %d: %s island %d\n", i, s.name, s.island)
+		}
 	}
 	var v *Result
 	reopened := false
@@ -200,6 +206,14 @@ func runC29(t *testing.T, c Case) (res Result) {
 			r := violation("graceful_stop_never_returns", "at the end")
 			v = &r
 			return
+		}
+		if os.Getenv("VERIF_DEBUG") != "" {
+			for _, r := range srv.logs.records {
+				fmt.Printf("  log: %s\n", oneLine(r, 300))
+			}
+			for _, p := range disk.Walk("/") {
+				fmt.Printf("  file: %s\n", p)
+			}
 		}
 		// 1. fast name lookup on every file
 		want := map[string]bool{}
